@@ -8,7 +8,6 @@ package fwcore
 
 import (
 	"bufio"
-	"encoding/binary"
 	"encoding/hex"
 	"fmt"
 	"math/rand"
@@ -417,11 +416,7 @@ func (wd *world) doData(f []string, line string) {
 		pkt.PitToken = unhx(f[4])
 	}
 	now := wd.now()
-	if len(pkt.PitToken) == 6 && int(binary.BigEndian.Uint16(pkt.PitToken)) == len(wd.threads) {
-		// dispatch.GetFWThread(len) indexes out of range in the pinned tree (property C04): not exercised, the packet is not delivered
-	} else {
-		face.VerifFwDispatch(wd.scopeOf(faceNo), faceNo, pkt)
-	}
+	face.VerifFwDispatch(wd.scopeOf(faceNo), faceNo, pkt)
 	got := wd.drain()
 	wd.pf("ev data %d %s\n", now, strings.Join(f[1:], " "))
 	ths := []string{}
@@ -744,7 +739,7 @@ func (g *gen) data() string {
 		case 6:
 			b := unhx(s.tok)
 			if len(b) == 6 {
-				b[1] = byte(g.wd.nthr + 1 + g.r.Intn(3)) // our entry token under a thread id that does not exist (never the thread count itself: see doData)
+				b[1] = byte(g.wd.nthr + g.r.Intn(3)) // our entry token under a thread id that does not exist (the thread count itself included)
 				if g.wd.nthr > 1 && g.r.Intn(2) == 0 {
 					b[1] = byte((int(unhx(s.tok)[1]) + 1) % g.wd.nthr) // ... or under another existing thread
 				}
